@@ -79,6 +79,11 @@ LimReenterM(kind, L) ==
          St(LimAction(kind, L), Ctr("dec"), NoCtr,
             [CounterZero |-> Always(3), PaddingSent |-> Always(2), NormalSent |-> Always(1)]),
          St(NoAction, NoCtr, Ctr("dec"), [CounterZero |-> Always(2), NormalSent |-> Always(1)])>>)
+\* a neighbour that changes state on every completion kind (and back on the matching end / next event)
+Follower ==
+  Mach(0, Unset, 0, Unset,
+       <<St(NoAction, NoCtr, NoCtr, [BlockingBegin |-> Always(1), PaddingSent |-> Always(1), TimerBegin |-> Always(1)]),
+         St(NoAction, NoCtr, NoCtr, [BlockingEnd |-> Always(0), NormalSent |-> Always(0), BlockingBegin |-> Always(0)])>>)
 LimKinds == {"pad", "block", "timer"}
 LimConfs(Ls) ==
   {Cf(<<LimM(k, L)>>, Unset, Unset) : k \in LimKinds, L \in Ls}
@@ -220,11 +225,15 @@ FamilyConfs(id) ==
     [] id = "limit-quick"  -> LimConfs({Const(0), Const(1), Const(2)})
     [] id = "limit-reenter" -> {Cf(<<LimReenterM(k, OneOf({0, 2}))>>, Unset, Unset) : k \in LimKinds}
                                \cup {Cf(<<LimReenterM("pad", Const(1))>>, Unset, Unset)}
+    [] id = "limit-duo"    -> {Cf(<<LimM(k, Const(1)), Follower>>, Unset, Unset) : k \in LimKinds}
+                               \cup {Cf(<<Follower, LimStartM(k, Const(2), Unset)>>, Unset, Unset) : k \in LimKinds}
     [] id = "limit-thorough" -> LimConfs({Const(0), Const(1), Const(2), OneOf({0, 1, 2})})
                                 \cup LimConfs2({Const(1), OneOf({0, 2})})
     [] id = "ctr-quick"    -> CtrConfsA(CtrSpecs) \cup CtrConfs2
     [] id = "ctr-thorough" -> CtrConfsAB(CtrSpecs) \cup CtrConfsA(CtrSpecs) \cup CtrConfs2
     [] id = "sig-quick"    -> SigConfs1 \cup SigConfs2
+    [] id = "sig-duo"      -> {Cf(<<a, b>>, Unset, Unset) : a \in {SigOn("NormalSent"), SigBoth(8)},
+                                                             b \in {SigOn("NormalSent"), SigEcho(16), SigBothOn("NormalRecv", 8)}}
     [] id = "sig-trio"     -> SigConfs3
     [] id = "sig-thorough" -> SigConfs1 \cup SigConfs2 \cup SigConfs3
     [] id = "core-quick"   -> CoreConfs0 \cup CoreConfs1
